@@ -12,6 +12,18 @@ claimed = {
  "C01": dict(engine="seqx", tech=SEQX, ref="§3/C01",
    text="Every (reachable state, operation) pair of List and Array up to the size bound, for five element types, is executed on the real code and compared with a Go-slice model, including all out-of-range/zero/negative indices, inverted ranges, empty and receiver-aliased operands and every random answer of ShuffleValues; non-termination is decided by a fuel counter.",
    note="bounded sizes (3 quick / 5 thorough) and 3-value alphabets; the model admits sets of outcomes where the statement is silent (DESIGN §3/C01)"),
+ "C02": dict(engine="seqx", tech=SEQX, ref="§3/C02",
+   text="All subsets of a 6/7-value universe are reached through every insertion order and every operation is applied in every state of the real Set, for the default, a reversed and a coarse caller-supplied collator and for int, string, []int, any and set-of-set elements, against a sorted-slice model; strict ascent and GetIndex/GetValue agreement are re-checked through the API after every transition.",
+   note="universes of 6/7 values; Set[any] order taken from the collator (decided by C07)"),
+ "C03": dict(engine="seqx", tech=SEQX, ref="§3/C03",
+   text="Every reachable ordered content over 3 insertable keys of the real Catalog times every operation (all key sequences up to length 2/3, every random answer of ShuffleValues), seven key types including pointer keys with equal content; the private key index and the private order are compared on every state in addition to the API-level agreement of all views.",
+   note="4-key universes, 2 values; MakeFromMap order unconstrained"),
+ "C14": dict(engine="seqx", tech=SEQX, ref="§3/C14",
+   text="The real Map is driven in lock-step with a Go map through every reachable content over 3 insertable keys and every operation (all key sequences), four constructors with repeated keys in every position, and snapshot-then-mutate histories; unordered views are compared as multisets.",
+   note="key types string, int, rune, any"),
+ "C17": dict(engine="seqx", tech=SEQX, ref="§3/C17",
+   text="Every (size, slot, second-iterator slot) state of the real iterator times every move including ToSlot(k) for all k in -n-2..n+2, on either of two iterators over one collection, plus snapshot scenarios (take iterator, mutate, walk both ways) for all seven kinds and every mutating operation.",
+   note="sizes 0..4/6; ToSlot(k<-size) admits 0 or 1"),
  "C04": dict(engine="vsched", tech=SCHED+" + brute-force FIFO linearizability of every history", ref="§3/C04",
    text="All interleavings (at synchronisation granularity) of ~50 small closed client programs on one shared real queue are enumerated; every execution is checked for data races (vector clocks over the instrumenter's access log), for FIFO linearizability with pending operations, for the back-pressure bound and for the literal reading of the observers.",
    note="sequentially consistent interleavings; races detected on struct fields, package variables and maps (not slice elements); 2-5 threads; RemoveAll findings listed in known_findings.json"),
